@@ -82,7 +82,10 @@ def apply(spec, p, rng):
     elif kind == "item":
         spec["faults"]["items"]["%d:%s" % (p[1], p[2])] = rng.choice(["err", "unset"])
     elif kind == "flush":
-        spec["faults"]["flushes"]["%d#%d" % (p[1], p[2])] = {"raise_at": rng.randint(0, 2)}
+        if rng.random() < 0.3:
+            spec["faults"]["flushes"]["%d#%d" % (p[1], p[2])] = {"cancel_self_at": rng.randint(0, 2)}
+        else:
+            spec["faults"]["flushes"]["%d#%d" % (p[1], p[2])] = {"raise_at": rng.randint(0, 2)}
 
 
 class C02(ProgProp):
